@@ -1,6 +1,7 @@
 from operator import xor
 
 import numpy as np
+from pb_bss import _verif
 from cached_property import cached_property
 from dataclasses import dataclass
 
@@ -201,6 +202,7 @@ class CBMMTrainer:
                 saliency=saliency,
                 weight_constant_axis=weight_constant_axis,
             )
+            _verif.trace(self, iteration, model, affiliation, None)
 
         return model
 
